@@ -320,6 +320,71 @@ def run(m, rep, tier):
     _ae = rep.rule('T10', 'every store / effectful call made with assertions enabled is also made by the NDEBUG build (no work inside assert())', floor=1)
     check_assert_effects(m, _ae, ('_string.c', '_string.h', 'string.c', 'string.h'))
 
+    # ---- T11 / T12 -----------------------------------------------------------------------------------------
+    # T11: a string *object* used as a source is measured by its size, never by strlen / wcslen (it may hold NULs)
+    t11 = rep.rule('T11', 'a string object used as the source of append / insert is measured by its size, not by strlen / wcslen', floor=2)
+    for pfx in PREFIXES:
+        for sfx in ('append', 'insert'):
+            f = m.ifn(pfx + sfx)
+            if f is None:
+                continue
+            meas = [c for c in f.all_insts() if c.op == 'call' and c.callee in ('strlen', 'wcslen')]
+            if meas:
+                t11.violation(pfx + sfx, 'the source string object is measured with %s at %s: characters after an embedded NUL are dropped although they are '
+                              'part of the object\'s size' % (meas[0].callee, meas[0].loc()), floc(m, f), {})
+            else:
+                t11.ok(pfx + sfx, 'length taken from the source object\'s size', floc(m, f))
+    # T12: ranges of one and the same buffer are moved with memmove
+    t12 = rep.rule('T12', 'characters are moved within one buffer with memmove, never memcpy (the ranges overlap when fewer are inserted than follow)', floor=2)
+    n12 = 0
+    for name in sorted(ents):
+        f = m.ifn(name)
+        if f is None:
+            continue
+        for c in f.all_insts():
+            cal = c.callee or ''
+            if c.op != 'call' or not cal.startswith(('llvm.memcpy', 'llvm.memmove')) or not c.srcfn.startswith(PREFIXES):
+                continue
+            roots = []
+            for o in c.o[:2]:
+                r = resolve_addr(f, o).root if isinstance(o, str) else None
+                ri = f.get(strip_bitcasts(f, r)) if isinstance(r, str) else None
+                # through pointer arithmetic on the buffer pointer
+                guard = 0
+                while ri is not None and ri.op in ('inttoptr', 'ptrtoint', 'add', 'getelementptr', 'bitcast') and guard < 8:
+                    ri = f.get(ri.o[0]) if isinstance(ri.o[0], str) else None
+                    guard += 1
+                if ri is not None and ri.op == 'load' and resolve_addr(f, ri.o[0]).path.endswith('elem.base'):
+                    roots.append(resolve_addr(f, ri.o[0]).root)
+                else:
+                    roots.append(None)
+            if roots[0] is None or roots[0] != roots[1]:
+                continue
+            n12 += 1
+            site = '%s:%s' % (name, c.srcfn)
+            if cal.startswith('llvm.memcpy'):
+                t12.violation(site, 'source and destination at %s are ranges of the same string buffer but are copied with memcpy: they overlap whenever fewer '
+                              'characters are inserted / erased than lie behind the position' % c.loc(), c.loc(), {})
+            else:
+                t12.ok(site, 'memmove within the buffer', c.loc())
+    if n12 == 0:
+        t12.undecided('strings', 'no move within a string buffer found')
+
+    # ---- T13: counts and positions are never compared as signed values -----------------------------------------
+    t13 = rep.rule('T13', 'no size_t position / count (or a difference of such) is compared as a signed value in the string code', floor=10)
+    for name in sorted(ents):
+        f = m.ifn(name)
+        if f is None:
+            continue
+        tnt = nw.tainted(f)
+        sg = [i for i in f.all_insts() if i.op == 'icmp' and i.pred in ('slt', 'sle', 'sgt', 'sge') and i.srcfn.startswith(PREFIXES)
+              and any(isinstance(o, str) and o in tnt for o in i.o)]
+        if sg:
+            t13.violation(name, 'a value computed from a size_t parameter is compared as signed at %s: counts above SSIZE_MAX (the all-ones "to the end" '
+                          'value) take the wrong branch' % sg[0].loc(), floc(m, f), {})
+        else:
+            t13.ok(name, 'no signed comparison of parameter-derived sizes', floc(m, f))
+
 
 class _Collect:
     """stands in for a rule: remembers the single verdict check_terminator produces"""
